@@ -144,4 +144,3 @@ func defaultInitPkgs() map[string]bool {
 	}
 }
 
-func cmdCheck(args []string) {}
